@@ -193,6 +193,22 @@ class SymSet(object):
     def __rsub__(self, other):
         return SymSet(other) - self
 
+    def difference(self, *others):
+        r = self
+        for o in others:
+            r = r - o
+        return r
+
+    def issubset(self, other):
+        o = other if isinstance(other, SymSet) else SymSet(other)
+        return all(x in o for x in self.items)
+
+    def issuperset(self, other):
+        return all(x in self for x in other)
+
+    def copy(self):
+        return SymSet(self.items)
+
     def __and__(self, other):
         return self.intersection(other)
 
